@@ -26,8 +26,8 @@
      C16_primitive_accepted - the primitive form is accepted exactly when it
        is not a CER primitive of more than 1000 octets.
      C16_source_* - the value as a decoding source (OctetStringSource, Proofs/OctSrcP.v): over
-       every string whose segment walk is defined - every primitive and every
-       BER-accepted constructed one - request(n) never reaches an unwrap or
+       every string whose segment walk is defined - every primitive one and every
+       constructed one accepted in BER or in CER - request(n) never reaches an unwrap or
        unreachable!(), grants at least min(n, what is left) and never more,
        slice() is a prefix of what is left and only grows, advance(k) drops k
        octets, and read to the end by requests of any size the source yields
@@ -149,6 +149,10 @@ Theorem C16_source_of_accepted_ber : forall fuel c s o c' s', nf s -> octets_ok 
   take_constructed_ber fuel c s = (Ok (o, c'), s') ->
   exists x, os_octets o = Ok x /\ oss_has (oss_new o) x.
 Proof. exact oss_of_accepted_ber. Qed.
+Theorem C16_source_of_accepted_cer : forall fuel c s o c' s', nf s -> octets_ok (rem s) = true -> cmd c = Cer ->
+  take_constructed_cer fuel c s = (Ok (o, c'), s') ->
+  exists x, os_octets o = Ok x /\ oss_has (oss_new o) x.
+Proof. exact oss_of_accepted_cer. Qed.
 Theorem C16_source_of_primitive : forall b, oss_has (oss_new (OPrim b)) b.
 Proof. exact oss_of_primitive. Qed.
 (* read to the end by requests of any size the source yields exactly the octets of the string *)
@@ -176,5 +180,6 @@ Print Assumptions C16_source_state.
 Print Assumptions C16_source_request_contract.
 Print Assumptions C16_source_advance.
 Print Assumptions C16_source_of_accepted_ber.
+Print Assumptions C16_source_of_accepted_cer.
 Print Assumptions C16_source_of_primitive.
 Print Assumptions C16_source_presents_octets.
